@@ -443,6 +443,10 @@ def sharded(ctx, reqs, meta):
             spec.update({"minishard_bits": 1, "shard_bits": 0, "preshift_bits": 0, "data_encoding": "raw",
                          "minishard_index_encoding": "raw"})
             strategy = "on disk"
+        if _ == 1:
+            # always present: one chunk per minishard, so that a failed store leaves a minishard without any entry
+            spec.update({"minishard_bits": 2, "shard_bits": 0, "preshift_bits": 0})
+            strategy = "on disk"
         info = make_info("uint16", 1, "raw", spec)
         tmp = tempfile.mkdtemp(prefix="ngv_c18s_")
         old_tmpdir = tempfile.tempdir
